@@ -318,7 +318,7 @@ Section Wf.
     | RTermcapFail names upper =>
         negb (match names with [] => true | _ => false end) && forallb name_ok names && keys_increasing names
     | RPaste text => utf8_valid text && forallb text_byte_ok text
-    | RSgr params | RFaceReport params => sgr_wf params && negb (sgr_inexpressible params)
+    | RSgr params | RFaceReport params => sgr_wf params
     end.
 End Wf.
 
@@ -328,3 +328,11 @@ Definition probe1 : rface := mkR (Some (RGBA 1 1 1 255)) (Some (RGBA 2 2 2 255))
 Definition probe2 : rface := mkR (Some (RGBA 3 3 3 255)) (Some (RGBA 4 4 4 255)) UDashed true true true false true.
 Definition sgr_event_ok (params : list N) (m : face_modify) : bool :=
   forallb (fun r => rface_eqb (rapply m r) (ref_sgr params r)) [rface_default; probe1; probe2].
+
+(* known finding C06-inexpressible as it shows in events (C04-face-report-inverse): with one of
+   7 / 27 / 39 / 49 among the parameters the library's result is that of the recorded machine
+   (those four parameters ignored) *)
+Definition sgr_event_recorded (params : list N) (m : face_modify) : bool :=
+  forallb (fun r => rface_eqb (rapply m r) (ref_sgr_lib params r)) [rface_default; probe1; probe2].
+Definition face_report_recorded (params : list N) : tev :=
+  EFaceGet (face_of_rface (ref_sgr_lib params rface_default)).
